@@ -74,3 +74,13 @@ Require Copia.Proofs.TiePatch.
 Theorem C01_patch_is_translation_of_source : TiePatch.patch_model_is_translation.
 Proof. exact TiePatch.patch_model_is_translation_holds. Qed.
 Print Assumptions C01_patch_is_translation_of_source.
+
+(** [compute_delta] - the delta of the theorems above - is the translation of src/sync.rs `CopiaSync::delta` and of
+    src/async_sync.rs `AsyncCopiaSync::delta` (the engine of `copia delta`) as the source has them now: the index-based
+    `while pos + block_size <= len` loop, the rolling checksum re-initialised after a match and rolled after a literal
+    byte, the weak-then-strong lookup, the literal tail (Gen/ScanGen.v, Proofs/TieScan.v); the lookup table itself
+    (first block in signature order with that weak and strong hash) stays a modelled part tied by correspondence. *)
+Require Copia.Proofs.TieScan.
+Theorem C01_scan_is_translation_of_source : TieScan.scan_model_is_translation.
+Proof. exact TieScan.scan_model_is_translation_holds. Qed.
+Print Assumptions C01_scan_is_translation_of_source.
